@@ -25,7 +25,17 @@ def apply_img_op(x, o: Dict[str, Any], variant: int = 0):
     if op == "resize":
         return x.resize(o["n"], mode="linear", **ac_kw(o)) if variant % 2 == 0 else x.resize(*o["n"], **ac_kw(o))
     if op == "resample":
-        return x.resample(fl(F(o["h"])))
+        h_ = fl(F(o["h"]))
+        g_ = x.grid() if single else x.grids()[0]
+        if variant % 4 == 1:
+            return x.resample(*h_)
+        if len(set(h_)) == 1 and variant % 4 == 2:
+            if abs(float(g_.spacing().min()) - h_[0]) < 1e-9:
+                return x.resample("min")
+            if abs(float(g_.spacing().max()) - h_[0]) < 1e-9:
+                return x.resample("max")
+            return x.resample(h_[0])
+        return x.resample(h_)
     if op == "downsample":
         if variant % 3 == 2 and o["min"] <= 1:  # the documented equivalent: upsampling by a negative number of levels
             return x.upsample(-o["levels"], dims=o["dims"] or None, sigma=0, **ac_kw(o))
@@ -35,12 +45,16 @@ def apply_img_op(x, o: Dict[str, Any], variant: int = 0):
     if op in ("crop", "pad"):
         f = getattr(x, op)
         if o["lo"] == o["hi"] and variant % 2:
+            if variant % 4 == 3 and len(set(o["lo"])) == 1:
+                return f(margin=int(o["lo"][0]))
+            if variant % 8 == 5:
+                return f(tuple(o["lo"]))
             return f(margin=o["lo"])
         return f(num=interleave(o["lo"], o["hi"]))
     if op == "center_crop":
-        return x.center_crop(o["n"])
+        return x.center_crop(o["n"]) if variant % 2 == 0 else x.center_crop(*o["n"])
     if op == "center_pad":
-        return x.center_pad(o["n"])
+        return x.center_pad(o["n"]) if variant % 2 == 0 else x.center_pad(*o["n"])
     if op == "narrow":
         return x.narrow(x.ndim - 1 - o["dim"], o["start"], o["len"])
     if op == "roi":
